@@ -280,8 +280,12 @@ theorem booleanOp_evenOdd {E : Engine} {far : Pt → List Path → Prop} (hE : E
 /-- [Tp] **pointwise statement of the property**: `inside (A op B) ⇔ op (inside A, inside B)`.
 Extra hypotheses `hSA`, `hSB` = spec adequacy S2 (DESIGN §6.6): for a *valid* (multi)polygon the
 even-odd parity over all its rings is its interior (Jordan curve theorem + holes inside the shell,
-members with disjoint interiors); not formalised, validated numerically by the membership clause of
-the oracle on every run.
+members with disjoint interiors). C04X: `hSA`/`hSB` are now *theorems* for valid Polygon operands
+(`evenOdd_eq_inside_valid`, giving the full statement `booleanOp_pointwise_polygon` below) and for
+valid MultiPolygon operands whose members have no holes (`booleanOp_pointwise_multi_holefree_partial`);
+what this theorem still covers beyond those: MultiPolygon operands with several members of which one
+has a hole, where `hSA`/`hSB` reduce to "at most one member contains `p`"
+(`booleanOp_pointwise_multi_partial`), validated numerically by the membership clause every run.
 Full statement: the same without `hSA`/`hSB` but with `validGeom (.multiPolygon a)`, `… b`. -/
 theorem booleanOp_pointwise_partial {E : Engine} {far : Pt → List Path → Prop} (hE : EngineSpec E far)
     (a b : List Poly) (op : OpType) (p : Pt)
@@ -354,9 +358,11 @@ private theorem rings_singletons (ms : List Poly) : (ms.map (fun m => [m])).flat
 for both windings of the first ring (Positive fill for clockwise, Negative otherwise) and every
 engine meeting the specification.
 Extra hypothesis `WindingValid` (each member's winding function is ±its indicator, the sign agreeing
-with `winding_order` of the first ring — a Jordan-type fact about valid polygons, not formalised).
+with `winding_order` of the first ring — a Jordan-type fact about valid polygons).
 Full statement: the same with `WindingValid` replaced by: every member valid, every exterior wound
-the same way and every hole the opposite way. -/
+the same way and every hole the opposite way — **proved below as `unaryUnion_region_valid`**
+(`windingValid_of_valid` derives `WindingValid` from `polyValid` and the orientation). What happens
+outside that class: `unaryUnion_fill_region`, `unaryUnion_inconsistent_witness`. -/
 theorem unaryUnion_region_partial {E : Engine} {far : Pt → List Path → Prop} (hE : EngineSpec E far)
     (ms : List Poly) (σ : Int) (p : Pt) (hw : WindingValid ms σ p)
     (hfar : far p ((ms.flatMap Poly.rings).map ringToShapePath)) :
